@@ -380,8 +380,31 @@ where
         // Initialize pointers and validate
         vec.update_pointers()?;
         vec.validate_header()?;
+        vec.validate_file_length()?;
 
         Ok(vec)
+    }
+
+    /// Refuse a file that is shorter than what its header describes.
+    ///
+    /// The header is only trustworthy if the file really holds `capacity` elements
+    /// after it; a truncated file (interrupted rewrite, capacity persisted before the
+    /// file was extended) must not be served from memory the file never contained.
+    fn validate_file_length(&self) -> Result<()> {
+        let file_len = std::fs::metadata(&self.file_path)
+            .map_err(|e| ZiporaError::io_error(&format!("Failed to get file size: {}", e)))?
+            .len();
+        if file_len < HEADER_SIZE as u64 {
+            return Err(ZiporaError::invalid_data("File too small for header"));
+        }
+        let needed = (self.capacity() as u64)
+            .checked_mul(std::mem::size_of::<T>() as u64)
+            .and_then(|data| data.checked_add(HEADER_SIZE as u64))
+            .ok_or_else(|| ZiporaError::invalid_data("Capacity overflows file size"))?;
+        if file_len < needed {
+            return Err(ZiporaError::invalid_data("File shorter than header capacity"));
+        }
+        Ok(())
     }
 
     /// Get the number of elements in the vector
